@@ -32,7 +32,17 @@ METHODS = (
     "link_betweenness edge_betweenness newman_betweenness arenas_betweenness "
     "matching_index coreness assortativity laplacian eigenvector_centrality "
     "pagerank msf_synchronizability nsi_degree nsi_indegree nsi_outdegree "
-    "nsi_bildegree nsi_local_clustering nsi_betweenness").split()
+    "nsi_bildegree nsi_local_clustering nsi_betweenness "
+    "nsi_local_cyclemotif_clustering nsi_local_midmotif_clustering "
+    "nsi_local_inmotif_clustering nsi_local_outmotif_clustering").split()
+
+# The corrected n.s.i. motif clusterings document `typical_weight` with the
+# same words as nsi_degree / nsi_local_clustering ("typical node weight to be
+# used for correction"), but DESIGN.md lists only the latter; the relation
+# "corrected value at uniform weights == unweighted coefficient" is therefore
+# checked under its own signatures (nsi_local_*motif_clustering:...) and can be
+# switched off here.
+CHECK_CORRECTED_MOTIF = True
 
 META = dict(
     shards={"quick": 16, "thorough": 16},
@@ -60,8 +70,9 @@ META = dict(
         "with N<3 or zero efficiency, random-walk/matching/cliquishness measures "
         "on directed graphs) are skipped and counted. Unit-weight relations: with "
         "node weights c*1 and typical_weight=c the corrected nsi_(in/out/bil)degree "
-        "equal the plain degrees and nsi_local_clustering equals local_clustering "
-        "on nodes of degree >= 2; with unit node weights nsi_*degree(key) equal the "
+        "equal the plain degrees, nsi_local_clustering equals local_clustering "
+        "on nodes of degree >= 2 and the four corrected nsi_local_*motif_clustering "
+        "equal the unweighted motif clusterings where their denominator is non-zero; with unit node weights nsi_*degree(key) equal the "
         "strengths and nsi_betweenness() equals twice the betweenness. "
         "non-trivial = distinct (labelled graph, directedness, measure, argument "
         "pattern) whose reference value is not constant over the compared "
@@ -510,7 +521,7 @@ def nsi_relations(ctx, c0, A, directed, rng, kdeg, kin, kout, kbil, lc, W):
     # unweighted coefficient has a non-zero denominator
     Tm = {"cycle": kin * kout - kbil, "mid": kin * kout - kbil,
           "in": kin * (kin - 1), "out": kout * (kout - 1)}
-    for kind in ("cycle", "mid", "in", "out"):
+    for kind in ("cycle", "mid", "in", "out") if CHECK_CORRECTED_MOTIF else ():
         if (Tm[kind] > 0).any():
             c.check(f"nsi_local_{kind}motif_clustering", pat,
                     R.motif_clustering(A, kind), typical_weight=cw,
